@@ -195,4 +195,20 @@ def miHier : Hier where
 example : Ty.beq' (rewrite miHier (.largeUnion 2) (.union [.cls 52, .cls 53, .cls 54])) (.cls 50) = true ∧
     Ty.beq' (rewrite miHier (.largeUnion 2) (.union [.cls 53, .cls 52, .cls 54])) (.cls 50) = true := by decide
 
+/-- the Protocol table of the second defect: B = 60, Drawable = 61 (a Protocol that is not runtime-checkable: `issubclass`
+    refuses it), Circle(B, Drawable) = 62, S1(B) = 63, S2(B) = 64 -/
+def protoHier : Hier where
+  mro c := match c with
+    | 62 => [62, 60, 61, objectC] | 63 => [63, 60, objectC] | 64 => [64, 60, objectC]
+    | c => [c, objectC]
+  bases c := match c with
+    | 62 => [60, 61] | 63 => [60] | 64 => [60]
+    | _ => [objectC]
+  unchk c := c == 61
+
+/-- non-vacuity: Circle first or last, the union collapses to B (the old code answered `Any` when Circle came first: the
+    TypeError of `issubclass(_, Drawable)` discarded every candidate) -/
+example : Ty.beq' (rewrite protoHier (.largeUnion 2) (.union [.cls 62, .cls 63, .cls 64])) (.cls 60) = true ∧
+    Ty.beq' (rewrite protoHier (.largeUnion 2) (.union [.cls 63, .cls 64, .cls 62])) (.cls 60) = true := by decide +kernel
+
 end MT.C14
